@@ -11,7 +11,9 @@ import (
 	"encoding/base64"
 	"encoding/json"
 	"math/big"
+	"os"
 	"strings"
+	"time"
 )
 
 // setup_seed() table for K (condor_auth_passwd.cpp), 256 bytes.
@@ -91,6 +93,7 @@ type world struct {
 	Pool   []byte            `json:"pool"`   // pool key file contents (scrambled); nil = not configured
 	Named  map[string][]byte `json:"named"`  // keyDir/<kid> contents (scrambled)
 	MaxAge int               `json:"maxage"` // TokenMaxAge
+	Env    string            `json:"env"`    // SEC_TOKEN_MAX_AGE ("" = unset)
 	Trust  string            `json:"trust"`
 }
 
@@ -119,11 +122,32 @@ func (w *world) refKey(kid string) ([]byte, bool) {
 	}
 	return k, true
 }
+
+// maxAge: the configured maximum token age in seconds. A positive TokenMaxAge
+// wins; otherwise SEC_TOKEN_MAX_AGE is a number of seconds (HTCondor's knob; read
+// as the duration "<value>s"); a value that does not parse is ignored; default
+// one hour. A result <= 0 means "no age limit".
 func (w *world) maxAge() int64 {
 	if w.MaxAge > 0 {
 		return int64(w.MaxAge)
 	}
+	if w.Env != "" {
+		if d, err := time.ParseDuration(w.Env + "s"); err == nil {
+			return int64(d / time.Second)
+		}
+	}
 	return 3600
+}
+
+// withEnv runs f with SEC_TOKEN_MAX_AGE set as the world says.
+func (w *world) withEnv(f func()) {
+	if w != nil && w.Env != "" {
+		os.Setenv("SEC_TOKEN_MAX_AGE", w.Env)
+		defer os.Unsetenv("SEC_TOKEN_MAX_AGE")
+	} else {
+		os.Unsetenv("SEC_TOKEN_MAX_AGE")
+	}
+	f()
 }
 func (w *world) serverID() string {
 	if w.Trust == "" {
@@ -208,7 +232,7 @@ func refTiming(c claimsView, now, maxAge int64) (valid bool, known bool) {
 		if !age.IsInt64() {
 			return false, false
 		}
-		if age.Int64() > maxAge {
+		if maxAge > 0 && age.Int64() > maxAge {
 			return false, true
 		}
 	}
